@@ -218,6 +218,26 @@ def weird_epk(rng: Rng):
     return j
 
 
+_X5C_VALUES = None
+
+
+def x5c_values() -> list:
+    """certificate chains as a receiver that looks inside them would meet them: real ones, one with a version number no parser
+    knows, truncated / padded / re-encoded ones, garbage that is valid base64"""
+    global _X5C_VALUES
+    if _X5C_VALUES is None:
+        import base64
+        fx = K.x5c_fixture()
+        good, odd = fx["chain"], fx["unknown-version"]
+        der = base64.b64decode(good[0])
+        enc = lambda b: base64.b64encode(b).decode()
+        _X5C_VALUES = [good, good[:1], [odd], [good[0], odd], [enc(der[:-1])], [enc(der[:40])], [enc(der + b"\x00")], [enc(der[:4])], [enc(b"\x30\x00")],
+                       [enc(b"\x30\x82\xff\xff")], [enc(b"\x30\x80")], [good[0].replace("+", "-").replace("/", "_")], [good[0] + "="], [good[0][:-2]],
+                       [good[0] + "\n"], [""], ["AAAA"], [good[0], 5], [[good[0]]], good[0], [enc(bytes(200))], [enc(b"\xff" * 64)],
+                       [enc(der.replace(b"\x06\x03\x2b\x65\x70", b"\x06\x03\x2b\x65\x7f"))]]
+    return _X5C_VALUES
+
+
 def mutate_member(rng: Rng, header: dict):
     m = rng.pick(MEMBERS + ["epk"])
     if m == "epk" and rng.chance(0.5):
@@ -231,6 +251,8 @@ def mutate_member(rng: Rng, header: dict):
         v = copy.deepcopy(rng.pick(WEIRD_JWKS))
     elif m in ("jku", "x5u") and rng.chance(0.7):
         v = rng.pick(URL_VALUES)
+    elif m in ("x5c", "x5t", "x5t#S256") and rng.chance(0.7):
+        v = copy.deepcopy(rng.pick(x5c_values())) if m == "x5c" else rng.pick(["", "=", "AAAA", "dGh1bWI", "+/+/", "a" * 27, "a" * 43, "a" * 44, "\u00e9", 42, "42"])
     elif m == "crit" and rng.chance(0.5):
         v = rng.pick([["b64"], ["nope"], [1], "b64", {"b64": 1}, [["b64"]], [None], ["alg"], [{}]])
     else:
